@@ -7,6 +7,21 @@ COMMON_NOTE = (
 )
 
 META: dict[str, dict[str, str]] = {
+    "C02": {
+        "level": "Decides (a) the argument roles of the Wigner-D and both Clebsch-Gordan factors against the formula in the property statement (term extraction with attribute paths as atoms, linear forms normalised) and (b) a must-use rule over the fold chain: every transition / symmetrisation graph / node reaches its accumulator unconditionally and accumulators are folded whole (sum over transitions, product over nodes, |coherent sum|^2, coefficient and prefactor multiply the product). Numerical equality, components and symmetrisation multiplicity are not decided.",
+        "note": "Argument order of sympy's Rotation.D and CG; an edit that skips provably vanishing terms would be reported by R-FOLD (none exists)." + COMMON_NOTE,
+        "technique": "static analysis: term extraction with role comparison against the stated formula; must-use dataflow over loops and comprehensions of the fold chain",
+    },
+    "C04": {
+        "level": "Decides the structural necessary conditions of rotation invariance: key/value provenance of every angle store in compute_helicity_angles (R-PROV; the sibling-named, child-filled store is recorded known finding K1), the frame chain B_z(|P|/E) R_y(-theta) R_z(-phi) of one summed momentum with recursion into the boosted pool, identical resolution of the opposite-helicity state at every consumer of the angle names, and the (-phi, theta, 0) convention of the Wigner-D. Numerical invariance is not decided.",
+        "note": "qrules Topology API; is_opposite_helicity_state is a total order on siblings." + COMMON_NOTE,
+        "technique": "static analysis: reaching-definition provenance of key vs value, AST role matching after local inlining, sibling agreement over call sites",
+    },
+    "C07": {
+        "level": "Decides: for every producer merged into HelicityAdapter.create_expressions (found from the call graph) each named store's value derives from the same state id as its name (so equal names carry equal quantities across registered topologies; K1 recorded as known finding), and the definitions of InvariantMass, Phi, Theta, component slices, norms, mass naming and the mass store equal the documented formulas. Agreement with an independent numerical computation is not decided.",
+        "note": "qrules get_originating_final_state_edge_ids semantics." + COMMON_NOTE,
+        "technique": "static analysis: reaching-definition provenance over call-graph-discovered producers; term extraction of expression-class definitions",
+    },
     "C05": {
         "level": "Decides the structural necessary conditions: every list/set .remove() in the package is guarded or covered by a recorded invariant (so formulating an aligned model cannot raise for any spin), the alignment PoolSums range over create_spin_range(s) of the rotated state's own spin with the matching Wigner-D j and index, create_spin_range runs -s..s in unit steps, and the DPD Wigner-d factors are wired to consistent outer states. Does not decide aligned == unaligned intensity.",
         "note": "Invariant table for two remove() sites (reason recorded per entry)." + COMMON_NOTE,
